@@ -111,7 +111,7 @@ struct WebSocketFrame
     }
 
     // Payload
-    if (data.size() < pos + payloadLen)
+    if (payloadLen > data.size() - pos)
     {
       return std::nullopt; // incomplete
     }
